@@ -110,6 +110,13 @@ func (m *Module) Evaluation(
 		p.Fatal(ctx, err)
 	}
 
+	// `module` at the end of a line: the newline is not a module name
+	if nextT == nil || nextT.IsNewLineIdentifier() {
+		p.Unget()
+
+		return fmt.Errorf("syntax error, module name expected")
+	}
+
 	nextFrame := m.getNextFrame(ctx)
 	class := nextT.ToString()
 
